@@ -55,7 +55,7 @@ CLAIMED = {
     'C01': dict(
         technique='Lean 4 theorems (three-level merge succeeds and is lossless for every key and grid; reversed file list follows flipped data; fill index arithmetic) + stack/merge/lookup correspondences + per-file oracle through the output affine',
         text='For every S x T x V and every value pattern the per-key three-level merge of to_nifti(embed_meta) is proved to return at (s,t,v) what the file placed there said (convert_lookup_key and its 4-D / 3-D forms); that the three levels of merging cannot fail for any complete stack (T, V >= 2 where those axes exist) is proved too, so the statement holds without premise (convert_total, convert_total_4d, convert_total_3d); the canonical file order is proved unique, the per-volume reversal is proved to put at output slice k the file whose pixels the flip moves there, and get_meta is proved to read the documented position (C08). On the implementation every source file of synthetic series (6 orientations + oblique, both directions, explicit / guessed ordering, shuffled adds, several voxel orders) is located through the output affine and every extracted non-filtered key compared.',
-        design='DESIGN.md §7 C01', note=BASE_NOTE + ' Composition of the per-key theorem with the stack model is by the correspondences (stack_shape, stack_history, merge, lookup), not by one end-to-end Lean theorem; extraction is ground truth here; float geometry locates voxels.'),
+        design='DESIGN.md §7 C01', note=BASE_NOTE + ' The per-key pipeline is composed with the stack model (canonical order for any add order, per-volume reversal on a slice flip) in one Lean theorem (convert_end_to_end); the axis-permutation part of a voxel order and the pixel placement are C02 / C17; extraction is ground truth here; float geometry locates voxels.'),
     'C02': dict(
         technique='Lean 4 theorems (fill index in range and injective, canonical order unique, reversal index, reorientation transform maps back for all 48 transforms and shapes) + pixel-exact oracle through the affine',
         text='get_data file index arithmetic is proved a bijection between grid cells and files; for each of the 48 transforms and every shape the reorientation matrix maps output indices to source indices and the output orientation is the requested one; on the implementation every source pixel of labelled synthetic series is looked up at the index the output affine assigns to its DICOM patient position (LPS->RAS), each output voxel hit exactly once, dtype rule checked, for several voxel orders per series.',
